@@ -132,10 +132,13 @@ fn split_at(stream: &[u8], cuts: &[usize]) -> Vec<Vec<u8>> {
 
 pub fn run(ctx: &mut Ctx) {
     quiet_panics();
+    // pure parser calls: a case that takes this long is a busy loop (the watchdog names it)
+    set_stall_limit(40);
     let rt = tokio::runtime::Builder::new_current_thread().enable_all().build().unwrap();
     let n_streams = if ctx.thorough() { 400 } else { 60 };
     let mut run_case = |ctx: &mut Ctx, chunks: Vec<Vec<u8>>| {
         let q = chunks_query(&chunks);
+        begin_case(&q);
         let c2 = chunks.clone();
         let r = catch(std::panic::AssertUnwindSafe(|| rt.block_on(verif::udp_decode_stream(c2))));
         match r {
@@ -224,6 +227,7 @@ pub fn run(ctx: &mut Ctx) {
         let plen = *ctx.rng.pick(&[0usize, 1, 2, 17, 100, 1472]);
         let payload = ctx.rng.bytes(plen);
         let q = format!("c06 encode {} {} {}", sock_tokens(&src), sock_tokens(&dst), hex(&payload));
+        begin_case(&q);
         match verif::udp_encode(src, dst, &payload) {
             Some(b) => ctx.emit(&q, &hex(&b)),
             None => ctx.emit(&q, "none"),
